@@ -68,8 +68,95 @@ SPREAD_RANGE = {"Normal": (0.3, 2.0), "Gamma": (1.0, 5.0), "NegBinom": (0.5, 5.0
 
 # --------------------------------------------------------------------------- cases
 
-def _loss_case(r, want_order=None):
-    s = LC.gen_setup(r, want_order=want_order)
+# where the observation grid sits and what it looks like (applied to the setup of losscommon.gen_setup, which draws distinct
+# times after t0 = 0): replicate observations, a grid far from the time origin (both signs), a horizon of t0 + tiny, neighbours one
+# ulp apart, an observation at t0, a one-point grid.  What the unchanged pygom refuses (IntegrationError on a zero-length first
+# step, the constructor's trial integration on a one-ulp step, a one-point grid with several observed states) is tagged, not judged.
+GRID_VARIANTS = [("plain", 8), ("repeated", 5), ("far", 3), ("far-repeated", 2), ("tiny-horizon", 2), ("ulp", 1), ("at-t0", 1), ("one-point", 2)]
+T0_FAR = [738000.0, -738000.0, 10000.0, -10000.0, 1.0e6, -123456.5, 1.0e7]
+MODEL_VARIANTS = [("standard", 12), ("time-dependent", 3), ("affine", 4), ("one-state", 1)]
+UNSUPPORTED = {"at-t0": ("IntegrationError", "InputError"), "ulp": ("IntegrationError", "InputError"), "one-point": ("AssertionError",),
+               "repeated": ("InputError", "IntegrationError"), "far-repeated": ("InputError", "IntegrationError")}
+
+
+def _custom_setup(r, kind, want_order):
+    """the setup of losscommon.gen_setup for model families it does not draw: time-dependent rates, right-hand sides at most first
+    order in the states (linear chains, constant inflow, constant explicit ODE terms, time-dependent coefficients), one state"""
+    from .. import gen
+    from . import c02 as C2
+    if kind == "affine":
+        spec, meta = C2.gen_affine_spec(r, r.choice(C2.AFFINE))
+    elif kind == "one-state":
+        spec, meta = gen.gen_model(r, min_states=1, max_states=1, max_params=2, min_events=1, max_events=2, allow_time=r.random() < 0.3,
+                                   max_mag=2, allow_range=False, allow_derived=False)
+    else:
+        spec, meta = gen.gen_model(r, min_states=2, max_states=4, max_params=4, min_events=1, max_events=4, allow_time=True, max_mag=2,
+                                   types=(("T", 6), ("B", 1), ("D", 2)), kinds=[("linear", 3), ("mass", 3), ("saturating", 1), ("periodic", 4)])
+    states, params = meta["states"], meta["params"]
+    theta = [round(r.uniform(0.1, 0.7), 4) for _ in params]
+    x0 = [round(r.uniform(1.0, 5.0), 4) for _ in states]
+    T = r.uniform(0.5, 2.0)
+    n = r.randint(3, 7)
+    if r.random() < 0.5:
+        times, grid = [round(T * (i + 1) / n, 6) for i in range(n)], "uniform"
+    else:
+        times, grid = [], "non-uniform"
+        for c_ in sorted(r.uniform(0.05, 1.0) for _ in range(n)):
+            v = round(T * c_, 6)
+            if not times or v > times[-1] + 1e-3:
+                times.append(v)
+    obs = r.sample(states, r.randint(1, min(3, len(states))))
+    if want_order == "ascending":
+        obs = sorted(obs, key=states.index)
+    elif want_order == "not-ascending" and len(obs) >= 2:
+        obs = sorted(obs, key=states.index, reverse=True)
+    return {"model": {"src": "random", "spec": spec, "meta": {"kinds": meta["kinds"]}}, "states": states, "params": params, "theta_true": theta,
+            "theta_eval": [round(v * r.uniform(0.8, 1.25), 4) for v in theta], "x0": x0, "x0_eval": [round(v * r.uniform(0.85, 1.2), 4) for v in x0],
+            "t0": 0.0, "times": times, "grid": grid, "obs": obs}
+
+
+def _ulp_after(v):
+    return float(np.nextafter(v, np.inf)) if abs(v) >= 1e-300 else 2.0 ** -60
+
+
+def _apply_grid_variant(r, s, variant):
+    times, t0 = list(s["times"]), float(s["t0"])
+    if variant in ("far", "far-repeated"):
+        t0 = r.choice(T0_FAR)
+        times = [t0 + v for v in times]
+    if variant in ("repeated", "far-repeated"):
+        for _ in range(r.randint(1, 3)):
+            j = r.randrange(len(times))
+            times = times[:j + 1] + [times[j]] + times[j + 1:]
+    elif variant == "tiny-horizon":
+        c = r.choice([1e-3, 1e-6, 1e-9])
+        times = [v * c for v in times]
+    elif variant == "ulp":
+        j = r.randrange(len(times))
+        times = times[:j + 1] + [_ulp_after(times[j])] + times[j + 1:]
+    elif variant == "at-t0":
+        times = [t0] + times
+    elif variant == "one-point":
+        times = [r.choice(times)]
+    s["times"], s["t0"], s["grid_variant"] = times, t0, variant
+    return s
+
+
+def _loss_case(r, want_order=None, model_variant=None, grid_variant=None):
+    from .. import gen
+    mv = model_variant or gen.wchoice(r, MODEL_VARIANTS)
+    s = LC.gen_setup(r, want_order=want_order) if mv == "standard" else _custom_setup(r, mv, want_order)
+    s["model_variant"] = mv
+    # boundary values: a parameter / an initial state that is exactly zero (data-generating and evaluated value alike)
+    if r.random() < 0.1:
+        k = r.randrange(len(s["params"]))
+        s["theta_true"][k] = s["theta_eval"][k] = 0.0
+    if r.random() < 0.1:
+        k = r.randrange(len(s["states"]))
+        s["x0"][k] = 0.0
+        if r.random() < 0.5:
+            s["x0_eval"][k] = 0.0
+    s = _apply_grid_variant(r, s, grid_variant or gen.wchoice(r, GRID_VARIANTS))
     n, p = len(s["times"]), len(s["obs"])
     tp, ts = LC.gen_targets(r, s["params"], s["states"], p_tp=0.5, p_ts=0.35)
     spreads = {}
@@ -83,7 +170,7 @@ def _loss_case(r, want_order=None):
         w[1][r.randrange(n)][r.randrange(p)] = 0.0 if n * p > 1 else w[1][0][0]
     return {"kind": "loss", "setup": s, "weights": list(w), "spreads": spreads, "target_param": tp, "target_state": ts,
             "data": r.choice(["truth", "perturbed", "perturbed"]), "noise_seed": r.getrandbits(32), "style": r.randrange(30),
-            "unweighted_call": r.random() < 0.2}
+            "unweighted_call": r.random() < 0.2, "rejected_inputs": r.random() < 0.15}
 
 
 def _rand_x(r, n, p):
@@ -208,6 +295,8 @@ def sig(site, cls, setup, tp, wkind):
         s += ":target_param"
     if wkind != "none":
         s += ":weights=" + wkind
+    if setup.get("grid_variant", "plain") != "plain":
+        s += ":grid=" + setup["grid_variant"]
     return s
 
 
@@ -230,6 +319,7 @@ def run_loss(case):
     idx = [states.index(o) for o in obs]
     tags += ["src:" + s["model"]["src"] + (":" + s["model"]["name"] if s["model"]["src"] == "catalogue" else ""),
              "grid:" + s["grid"], "p=%d" % p, "order:" + (LC.order_class(states, obs) if p > 1 else "single"),
+             "grid-variant:" + s.get("grid_variant", "plain"), "model-variant:" + s.get("model_variant", "standard"),
              "weights:" + case["weights"][0], "target_param:" + ("all" if tp is None else LC.order_class(params, tp) if len(tp) > 1 else "one"),
              "target_state:" + ("none" if ts is None else "subset"), "data:" + case["data"]]
 
@@ -263,6 +353,48 @@ def run_loss(case):
     evaluated = 0
     margins = [0.0]
     checked_setparam = False
+    gv = s.get("grid_variant", "plain")
+
+    def unsupported(exc):
+        """forms of the observation grid the unchanged pygom refuses with an error (tagged, not judged): an observation at t0
+        (scipy's lsoda reports a zero-length first step as illegal input: IntegrationError), two times one ulp apart (the
+        constructor's trial integrate2 fails: InputError), a one-point grid with several observed states (AssertionError on the
+        weight shape); replicate times when the constructor's trial integrate2 (which re-chooses the integrator from the
+        eigenvalues after every step) lands on dopri5 - a fresh dopri5 refuses the zero-length step: InputError from the
+        constructor; with a right-hand side that is identically zero (a zero parameter) lsoda itself refuses the zero-length
+        step: IntegrationError.  A form it accepts is judged like any other."""
+        if type(exc).__name__ not in UNSUPPORTED.get(gv, ()):
+            return False
+        return gv != "one-point" or p >= 2
+
+    def rejected_inputs(obj, cls, y, sg, check, th_arg, iv_arg):
+        """inputs the unchanged pygom REJECTS (wrong lengths, unknown names).  The rejection is recorded (a silent acceptance is a
+        mismatch with the specification, there is no right value to compare with); what is JUDGED is the next proper call: the
+        object must not have been left in a state that makes cost(theta) wrong."""
+        probes = [("cost:theta-too-long", lambda: obj.cost(list(th_arg) + [0.5])),
+                  ("cost:theta-too-short", lambda: obj.cost(list(th_arg)[:-1])),
+                  ("constructor:unknown-state-name", lambda: LC.loss_class(cls)(list(th_arg), model, list(s["x0"]), s["t0"], np.array(s["times"], float),
+                                                                               np.array(y, float), list(obs[:-1]) + ["no_such_state"])),
+                  ("constructor:y-one-row-too-many", lambda: LC.loss_class(cls)(list(th_arg), model, list(s["x0"]), s["t0"], np.array(s["times"], float),
+                                                                                np.vstack([y, y[-1:]]), list(obs))),
+                  ("constructor:x0-too-short", lambda: LC.loss_class(cls)(list(th_arg), model, list(s["x0"])[:-1], s["t0"], np.array(s["times"], float),
+                                                                          np.array(y, float), list(obs)))]
+        if iv_arg is not None and ts is None and tp is None:
+            probes += [("costIV:too-long", lambda: obj.costIV(list(iv_arg) + [0.5])), ("costIV:too-short", lambda: obj.costIV(list(iv_arg)[:-1]))]
+        for what, fn in probes:
+            if what.startswith("constructor") and (tp is not None or ts is not None):
+                continue
+            try:
+                fn()
+                tags.append("rejected-input:%s:ACCEPTED" % what)
+                mism.append({"what": "rejection-lost:" + what, "detail": "%sLoss accepts an input the specification (and the unchanged pygom) rejects; "
+                             "obs=%s states=%s params=%s target_param=%s" % (cls, obs, states, params, tp)})
+            except Exception as exc:
+                tags.append("rejected-input:%s:raised:%s" % (what, type(exc).__name__))
+            LC.set_params(model, params, th_true)
+        c_after = obj.cost(th_arg)
+        # (the object keeps the initial values it was last given: those of the costIV call above when there was one)
+        check("cost-after-rejected-input", c_after, tr_eval if iv_arg is None else tr_iv, W, "cost(theta) after rejected inputs")
     from fractions import Fraction
     for cls in case.get("classes", LC.CLASSES):
         if cls not in data or (cls in LC.NEEDS_POSITIVE and lowest < 0.02):
@@ -283,6 +415,9 @@ def run_loss(case):
             obj = LC.make_loss(cls, theta_arg(s, tp, th_true), model, s["x0"], s["t0"], s["times"], y, obs,
                                case["weights"], case["spreads"].get(cls, ["default", None]), tp=tp, ts=ts, style=case["style"])
         except Exception as exc:
+            if unsupported(exc):
+                tags.append("unsupported:%s:constructor:%s" % (gv, type(exc).__name__))
+                continue
             viol.append({"what": "%sLoss constructor raised %s: %s" % (cls, type(exc).__name__, str(exc)[:200]),
                          "signature": sg("constructor") + ":raises:" + type(exc).__name__, "detail": json.dumps(case)[:1500]})
             continue
@@ -354,7 +489,12 @@ def run_loss(case):
             else:
                 c_iv = obj.costIV(arg)
                 check("costIV", c_iv, tr_iv, W, "costIV(theta, x0)")
+            if case.get("rejected_inputs"):
+                rejected_inputs(obj, cls, y, sg, check, theta_arg(s, tp, th_eval), None if ambiguous else arg)
         except Exception as exc:
+            if unsupported(exc):
+                tags.append("unsupported:%s:%s" % (gv, type(exc).__name__))
+                continue
             viol.append({"what": "%sLoss evaluation raised %s: %s" % (cls, type(exc).__name__, str(exc)[:200]),
                          "signature": sg("cost") + ":raises:" + type(exc).__name__, "detail": json.dumps(case)[:1500]})
     return {"nontrivial": evaluated > 0, "mismatches": mism, "violations": viol, "tags": sorted(set(tags)),
